@@ -7,7 +7,7 @@ import re
 from .lib import decision, guards, paths
 from .lib.mir import AnchorLost
 
-CONFIGS_QUICK = ["A"]
+CONFIGS_QUICK = ["A", "R"]
 CONFIGS_THOROUGH = ["A", "R"]
 TECHNIQUE = "vocabulary tables read from the compiled constants and from the derive(Serialize) output (the keys serde really writes) vs the OpenAPI 3.1 / JSON Schema 2020-12 fixed fields; sibling-family rule over IntoHandler impls; exhaustiveness over authentication fangs"
 LEVEL_TEXT = ('Decides clauses C15-a..f: every SchemaType::NAME is a JSON Schema 2020-12 type name (or empty = any); the keys each OpenAPI object actually serializes'
@@ -227,6 +227,10 @@ def c15b(ck, prog):
     g = prog.one(r"^ohkami::router::r#final::Router::gen_openapi_doc$")
     g = prog.inlined(g, 1, r"core::str::<impl str>::strip_prefix$")      # the route -> template conversion may be a helper
     ap = g.calls_to(r"paths::Operation::assign_path_param_name$")
+    if not ap:
+        # `names.iter().for_each(|n| operation.assign_path_param_name(n))`: the combinator and its closure expanded
+        g = prog.flattened(g, r"paths::Operation::assign_path_param_name$|core::str::<impl str>::strip_prefix$", combinators=True)
+        ap = g.calls_to(r"paths::Operation::assign_path_param_name$")
     ok = len(ap) == 1
     if ok:
         d = decision.describe_deep(g, ap[0].args[1], 6)
